@@ -1,8 +1,7 @@
 (* Engine `verilog`, document-level reader: the effect of one assign statement (parse_assign +
    connect_wires_for_assign), exactly: one instance of SDN_VERILOG_ASSIGNMENT_w is added, w = the smaller width;
-   its pin k carries bit w-1-k ... of BOTH sides, i.e. the two sides are paired bit by bit but MOST significant
-   first (open finding V06-assign-msb-first; for a one-bit assign this is the meaning of the statement);
-   nothing else changes except implied one-bit cables. *)
+   its pin k carries bit k (from the low end) of BOTH sides: o[k] = lhs bit k, i[k] = rhs bit k (the meaning of the
+   statement; former finding V06-assign-msb-first); nothing else changes except implied one-bit cables. *)
 From Coq Require Import List ZArith Bool Arith Lia Sorted Permutation.
 From SV Require Import Base.Base Fmt.VBits Fmt.VExpr Fmt.VTop Fmt.VDoc Fmt.VElab Fmt.VSpec Fmt.VSem
   Proofs.VerilogLists Proofs.VerilogSlice Proofs.VerilogGrow Proofs.VerilogPort Proofs.VElabBase Proofs.VElabInv Proofs.VElabWf
@@ -89,7 +88,7 @@ Theorem assign_item_spec lhs rhs n d d' : DInv d -> datom_typed (crange d) lhs -
     d' = set_conn (set_insts d2 (ed_insts d ++ [{| ei_name := assign_name w n; ei_ref := RAssign w; ei_params := []; ei_attrs := [] |}]))
                   (ed_conn d ++ new) /\
     (forall p x, In (p, x) new -> exists pk k, p = POuter ii pk k) /\
-    (forall k, (k < w)%nat -> pin_label d' (POuter ii 1 k) = nth_error (rev lb) k /\ pin_label d' (POuter ii 0 k) = nth_error (rev rb) k).
+    (forall k, (k < w)%nat -> pin_label d' (POuter ii 1 k) = nth_error lb k /\ pin_label d' (POuter ii 0 k) = nth_error rb k).
 Proof.
   intros DI Tl Tr H lb rb w ii. unfold assign_item in H.
   apply bind_ok in H. destruct H as ([d1 kl] & H1 & H). apply bind_ok in H. destruct H as ([d2 kr] & H2 & H).
@@ -116,7 +115,7 @@ Proof.
   destruct (cables_ext_fields d d1 E1) as (_ & _ & Fi1 & Fc1 & _). destruct (cables_ext_fields d1 d2 E2) as (_ & _ & Fi2 & Fc2 & _).
   assert (Eii : length (ed_insts d2) = ii) by (unfold ii; rewrite Fi2, Fi1; reflexivity). subst i3. rewrite Eii in H.
   pose proof (connect_all_conn _ _ _ H) as Ed'.
-  set (calls := interleave (combine (firstn w outs) (map (POuter ii 1) (seq 0 w))) (combine (firstn w ins) (map (POuter ii 0) (seq 0 w)))) in *.
+  set (calls := interleave (combine (firstn w (rev outs)) (map (POuter ii 1) (seq 0 w))) (combine (firstn w (rev ins)) (map (POuter ii 0) (seq 0 w)))) in *.
   exists d2, (map (fun wp => (snd wp, fst wp)) calls).
   split; [eapply cables_ext_trans; eassumption|]. split; [|split].
   - rewrite Ed', Ed3. cbn. rewrite Fi2, Fi1, Fc2, Fc1. reflexivity.
@@ -124,23 +123,25 @@ Proof.
     apply in_interleave in Hp. destruct Hp as [Hp|Hp]; apply in_combine_r in Hp; apply in_map_iff in Hp; destruct Hp as (k & <- & _); eauto.
   - intros k Hk.
     assert (DI' : DInv d') by (apply (ds_inv _ _ (connect_all_dstep _ _ _ H)); apply DI3; exact DI2).
-    assert (Lc : length (combine (firstn w outs) (map (POuter ii 1) (seq 0 w))) = length (combine (firstn w ins) (map (POuter ii 0) (seq 0 w)))).
-    { rewrite !combine_length, !firstn_length, !map_length, !seq_length. unfold w. lia. }
+    assert (Lc : length (combine (firstn w (rev outs)) (map (POuter ii 1) (seq 0 w))) = length (combine (firstn w (rev ins)) (map (POuter ii 0) (seq 0 w)))).
+    { rewrite !combine_length, !firstn_length, !rev_length, !map_length, !seq_length. unfold w. lia. }
     assert (Cab : ed_cables d' = ed_cables d2) by (rewrite Ed', Ed3; reflexivity).
     assert (PL : forall pk (l : list ewire) x, nth_error l k = Some x -> (w <= length l)%nat ->
                  In (x, POuter ii pk k) calls -> pin_label d' (POuter ii pk k) = wire_label d2 x).
     { intros pk l x Hx Hw Hc. unfold pin_label. rewrite (pin_wire_in_nodup (POuter ii pk k) x d' (di_conn d' DI')).
       - apply wire_label_same_cables. exact Cab.
       - rewrite Ed'. cbn. apply in_app_iff. right. apply in_map_iff. exists (x, POuter ii pk k). split; [reflexivity|exact Hc]. }
-    assert (Ko : exists x, nth_error outs k = Some x) by (destruct (nth_error outs k) eqn:E; [eauto|apply nth_error_None in E; unfold w in Hk; lia]).
-    assert (Ki : exists x, nth_error ins k = Some x) by (destruct (nth_error ins k) eqn:E; [eauto|apply nth_error_None in E; unfold w in Hk; lia]).
+    assert (Ll2r : map (wire_label d2) (rev outs) = map Some lb) by (rewrite map_rev, Ll2, <- map_rev, rev_involutive; reflexivity).
+    assert (Lrr : map (wire_label d2) (rev ins) = map Some rb) by (rewrite map_rev, Lr, <- map_rev, rev_involutive; reflexivity).
+    assert (Ko : exists x, nth_error (rev outs) k = Some x) by (destruct (nth_error (rev outs) k) eqn:E; [eauto|apply nth_error_None in E; rewrite rev_length in E; unfold w in Hk; lia]).
+    assert (Ki : exists x, nth_error (rev ins) k = Some x) by (destruct (nth_error (rev ins) k) eqn:E; [eauto|apply nth_error_None in E; rewrite rev_length in E; unfold w in Hk; lia]).
     destruct Ko as (xo & Xo), Ki as (xi & Xi). split.
-    + rewrite (PL 1%nat outs xo Xo ltac:(unfold w; lia)).
-      * assert (Y := f_equal (fun l => nth_error l k) Ll2). cbn in Y. rewrite !nth_error_map, Xo in Y. cbn in Y.
-        destruct (nth_error (rev lb) k); cbn in Y; [inversion Y; reflexivity|discriminate].
-      * apply in_interleave_l; [exact Lc|]. apply in_combine_nth; [exact Hk|exact Xo|unfold w; lia].
-    + rewrite (PL 0%nat ins xi Xi ltac:(unfold w; lia)).
-      * assert (Y := f_equal (fun l => nth_error l k) Lr). cbn in Y. rewrite !nth_error_map, Xi in Y. cbn in Y.
-        destruct (nth_error (rev rb) k); cbn in Y; [inversion Y; reflexivity|discriminate].
-      * apply in_interleave_r; [exact Lc|]. apply in_combine_nth; [exact Hk|exact Xi|unfold w; lia].
+    + rewrite (PL 1%nat (rev outs) xo Xo ltac:(rewrite rev_length; unfold w; lia)).
+      * assert (Y := f_equal (fun l => nth_error l k) Ll2r). cbn in Y. rewrite !nth_error_map, Xo in Y. cbn in Y.
+        destruct (nth_error lb k); cbn in Y; [inversion Y; reflexivity|discriminate].
+      * apply in_interleave_l; [exact Lc|]. apply in_combine_nth; [exact Hk|exact Xo|rewrite rev_length; unfold w; lia].
+    + rewrite (PL 0%nat (rev ins) xi Xi ltac:(rewrite rev_length; unfold w; lia)).
+      * assert (Y := f_equal (fun l => nth_error l k) Lrr). cbn in Y. rewrite !nth_error_map, Xi in Y. cbn in Y.
+        destruct (nth_error rb k); cbn in Y; [inversion Y; reflexivity|discriminate].
+      * apply in_interleave_r; [exact Lc|]. apply in_combine_nth; [exact Hk|exact Xi|rewrite rev_length; unfold w; lia].
 Qed.
